@@ -527,7 +527,11 @@ class _NestedExprInliner(ast.NodeTransformer):
 
             def visit_Call(self, c):
                 self.generic_visit(c)
-                if isinstance(c.func, ast.Name) and c.func.id in nested and not c.keywords and all(isinstance(a_, (ast.Name, ast.Constant)) for a_ in c.args):
+                def _plain(a_):
+                    while isinstance(a_, ast.Attribute):
+                        a_ = a_.value
+                    return isinstance(a_, (ast.Name, ast.Constant))
+                if isinstance(c.func, ast.Name) and c.func.id in nested and not c.keywords and all(_plain(a_) for a_ in c.args):
                     params, expr = nested[c.func.id]
                     if len(params) == len(c.args):
                         sub = dict(zip(params, c.args))
@@ -603,6 +607,161 @@ class _CallableTemps(ast.NodeTransformer):
         return node
 
 
+class _LambdaTemps(ast.NodeTransformer):
+    """N1g: `g = lambda x: E` bound once in a function and only called: every `g(a)` with simple arguments becomes E[a/x] (the free names
+    of E denote the same objects at the call as at the definition when the function does not rebind them in between -- checked: they are
+    not assigned after the lambda).  Arises when a helper taking a callable (`_sum(fun)`) was inlined with a lambda argument."""
+
+    def __init__(self):
+        self.count = 0
+
+    def visit_FunctionDef(self, node):
+        self.generic_visit(node)
+        lam = {}
+        stores = {}
+        for n in ast.walk(node):
+            if isinstance(n, ast.Name) and isinstance(n.ctx, (ast.Store, ast.Del)):
+                stores.setdefault(n.id, []).append(n)
+        for st in ast.walk(node):
+            if isinstance(st, ast.Assign) and len(st.targets) == 1 and isinstance(st.targets[0], ast.Name) and isinstance(st.value, ast.Lambda):
+                nm = st.targets[0].id
+                a = st.value.args
+                if len(stores.get(nm, [])) != 1 or a.vararg or a.kwarg or a.kwonlyargs or a.defaults or a.posonlyargs:
+                    continue
+                params = [p.arg for p in a.args]
+                free = {x.id for x in ast.walk(st.value.body) if isinstance(x, ast.Name)} - set(params)
+                if any(getattr(x, "lineno", 0) > st.lineno for f_ in free for x in stores.get(f_, [])):
+                    continue
+                if any(isinstance(x, (ast.Lambda, ast.NamedExpr, ast.Yield, ast.Await, ast.comprehension)) for x in ast.walk(st.value.body)):
+                    continue
+                lam[nm] = (params, st.value.body, st)
+        if not lam:
+            return node
+        outer = self
+
+        class R(ast.NodeTransformer):
+            def visit_Call(self, c):
+                self.generic_visit(c)
+                if isinstance(c.func, ast.Name) and c.func.id in lam and not c.keywords and all(_simple_arg(a_) or isinstance(a_, ast.Subscript) and _simple_arg(a_.value) and
+                                                                                                  all(isinstance(x, (ast.Constant, ast.Name, ast.Slice, ast.Load, ast.Subscript, ast.Attribute)) for x in ast.walk(a_))
+                                                                                                  for a_ in c.args):
+                    params, body, _ = lam[c.func.id]
+                    if len(params) == len(c.args):
+                        sub = dict(zip(params, c.args))
+
+                        class S(ast.NodeTransformer):
+                            def visit_Name(self, n):
+                                return copy.deepcopy(sub[n.id]) if n.id in sub and isinstance(n.ctx, ast.Load) else n
+                        outer.count += 1
+                        return ast.copy_location(S().visit(copy.deepcopy(body)), c)
+                return c
+        R().visit(node)
+        # definitions that are no longer referenced disappear
+        refs = {x.id for x in ast.walk(node) if isinstance(x, ast.Name) and isinstance(x.ctx, ast.Load)}
+        dead = {id(v[2]) for k, v in lam.items() if k not in refs}
+        if dead:
+            class D(ast.NodeTransformer):
+                def visit_Assign(self, st):
+                    return None if id(st) in dead else st
+            D().visit(node)
+            for x in ast.walk(node):
+                for fld in ("body", "orelse", "finalbody"):
+                    blk = getattr(x, fld, None)
+                    if isinstance(blk, list) and not blk and fld == "body":
+                        setattr(x, fld, [ast.Pass()])
+        return node
+
+
+class _CondRebind(ast.NodeTransformer):
+    """N1f:   v = E                      ->      v = F[E/v] if T else E
+              if T: v = F(v)
+    for a simple, side-effect free E (name / attribute / subscript / constant) and a test T that does not mention v: the statement
+    form of a conditional expression (rules that read `reduced if periodic else raw` see one expression again)."""
+
+    def __init__(self):
+        self.count = 0
+
+    @staticmethod
+    def _simple(e):
+        return all(isinstance(x, (ast.Name, ast.Attribute, ast.Subscript, ast.Constant, ast.Load, ast.Tuple, ast.Slice, ast.UnaryOp, ast.USub))
+                   or (isinstance(x, ast.Call) and isinstance(x.func, ast.Name) and x.func.id == "len" and len(x.args) == 1 and not x.keywords)
+                   for x in ast.walk(e))
+
+    def _block(self, body):
+        out, i = [], 0
+        while i < len(body):
+            st = body[i]
+            nx = body[i + 1] if i + 1 < len(body) else None
+            if isinstance(st, ast.Assign) and len(st.targets) == 1 and isinstance(st.targets[0], ast.Name) and self._simple(st.value) \
+                    and isinstance(nx, ast.If) and not nx.orelse and len(nx.body) == 1 and isinstance(nx.body[0], ast.AugAssign) \
+                    and isinstance(nx.body[0].target, ast.Name) and nx.body[0].target.id == st.targets[0].id and self._simple(nx.body[0].value) \
+                    and not any(isinstance(x, ast.Name) and x.id == st.targets[0].id for x in ast.walk(nx.test)):
+                # v = E; if T: v op= c   ->   v = (E op c) if T else E
+                v = st.targets[0].id
+                E = st.value
+                F = ast.BinOp(left=copy.deepcopy(E), op=nx.body[0].op, right=copy.deepcopy(nx.body[0].value))
+                new = ast.Assign(targets=[ast.Name(id=v, ctx=ast.Store())], value=ast.IfExp(test=nx.test, body=F, orelse=copy.deepcopy(E)))
+                out.append(ast.copy_location(new, st))
+                self.count += 1
+                i += 2
+                continue
+            if isinstance(st, ast.Assign) and len(st.targets) == 1 and isinstance(st.targets[0], ast.Name) and self._simple(st.value) \
+                    and isinstance(nx, ast.If) and not nx.orelse and len(nx.body) == 1 and isinstance(nx.body[0], ast.Assign) \
+                    and len(nx.body[0].targets) == 1 and isinstance(nx.body[0].targets[0], ast.Name) and nx.body[0].targets[0].id == st.targets[0].id \
+                    and not any(isinstance(x, ast.Name) and x.id == st.targets[0].id for x in ast.walk(nx.test)):
+                v = st.targets[0].id
+                E = st.value
+
+                class R(ast.NodeTransformer):
+                    def visit_Name(self, node):
+                        return copy.deepcopy(E) if node.id == v and isinstance(node.ctx, ast.Load) else node
+                F = R().visit(copy.deepcopy(nx.body[0].value))
+                new = ast.Assign(targets=[ast.Name(id=v, ctx=ast.Store())], value=ast.IfExp(test=nx.test, body=F, orelse=copy.deepcopy(E)))
+                out.append(ast.copy_location(new, st))
+                self.count += 1
+                i += 2
+                continue
+            # `if A: if B: body`  ->  `if A and B: body`   (no else on either)
+            if isinstance(st, ast.If) and not st.orelse and len(st.body) == 1 and isinstance(st.body[0], ast.If) and not st.body[0].orelse:
+                inner = st.body[0]
+                new = ast.If(test=ast.BoolOp(op=ast.And(), values=[st.test, inner.test]), body=inner.body, orelse=[])
+                out.append(ast.copy_location(new, st))
+                self.count += 1
+                i += 1
+                continue
+            # `if B < A: A = B`  ->  `A = min(A, B)`   (and the mirror images with >, max): builtin min(a, b) is b exactly when b < a
+            if isinstance(st, ast.If) and not st.orelse and len(st.body) == 1 and isinstance(st.body[0], ast.Assign) and len(st.body[0].targets) == 1 \
+                    and isinstance(st.body[0].targets[0], ast.Name) and isinstance(st.test, ast.Compare) and len(st.test.ops) == 1 \
+                    and isinstance(st.test.ops[0], (ast.Lt, ast.Gt)) and self._simple(st.test.left) and self._simple(st.test.comparators[0]):
+                Aname = st.body[0].targets[0].id
+                Bexpr = st.body[0].value
+                l, r = st.test.left, st.test.comparators[0]
+                lt = isinstance(st.test.ops[0], ast.Lt)
+                fn_ = None
+                if ast.dump(l) == ast.dump(Bexpr) and isinstance(r, ast.Name) and r.id == Aname:
+                    fn_ = "min" if lt else "max"          # B < A: A = B   /   B > A: A = B
+                elif ast.dump(r) == ast.dump(Bexpr) and isinstance(l, ast.Name) and l.id == Aname:
+                    fn_ = "max" if lt else "min"          # A < B: A = B   /   A > B: A = B
+                if fn_ and self._simple(Bexpr):
+                    new = ast.Assign(targets=[ast.Name(id=Aname, ctx=ast.Store())],
+                                     value=ast.Call(func=ast.Name(id=fn_, ctx=ast.Load()), args=[ast.Name(id=Aname, ctx=ast.Load()), copy.deepcopy(Bexpr)], keywords=[]))
+                    out.append(ast.copy_location(new, st))
+                    self.count += 1
+                    i += 1
+                    continue
+            out.append(st)
+            i += 1
+        return out
+
+    def generic_visit(self, node):
+        super().generic_visit(node)
+        for fld in ("body", "orelse", "finalbody"):
+            blk = getattr(node, fld, None)
+            if isinstance(blk, list) and blk and isinstance(blk[0], ast.stmt):
+                setattr(node, fld, self._block(blk))
+        return node
+
+
 def normalise_module(tree: ast.Module, exported=(), unroll=True):
     """inline unknown private helpers of this module into their callers (in place on a deep copy); returns (new tree, info)"""
     tree = copy.deepcopy(tree)
@@ -646,6 +805,16 @@ def normalise_module(tree: ast.Module, exported=(), unroll=True):
     ct = _CallableTemps()
     ct.visit(tree)
     info["call_sites"] += ct.count
+    lt = _LambdaTemps()
+    lt.visit(tree)
+    info["call_sites"] += lt.count
+    if lt.count:
+        info["helpers_inlined"] = sorted(set(info["helpers_inlined"]) | {"<local lambdas applied>"})
+    cr = _CondRebind()
+    cr.visit(tree)
+    info["call_sites"] += cr.count
+    if cr.count:
+        info["helpers_inlined"] = sorted(set(info["helpers_inlined"]) | {"<conditional re-bindings as conditional expressions>"})
     ne = _NestedExprInliner()
     ne.visit(tree)
     info["call_sites"] += ne.count
